@@ -460,3 +460,156 @@ Corollary decode_elems_le : forall t, ty_ok t = true ->
   forall inp v r, decode t inp = Some (v, r) ->
   (length r <= length inp)%nat /\ (elems v <= length inp - length r)%nat.
 Proof. intros t Hok inp v r H. apply decode_elems in H; [|exact Hok]. lia. Qed.
+
+(* ---------- decoded values are well typed; re-encoding is canonical ---------- *)
+Lemma unzz_range : forall bits n, bits_ok bits = true -> n < 2 ^ bits ->
+  (- 2 ^ (Z.of_N bits - 1) <= unzz n < 2 ^ (Z.of_N bits - 1))%Z.
+Proof.
+  intros bits n Hb Hn. unfold unzz.
+  destruct (bits_ok_cases _ Hb) as [-> | [-> | [-> | ->]]].
+  - change (2 ^ 16) with 65536 in Hn. change (2 ^ (Z.of_N 16 - 1))%Z with 32768%Z. destruct (N.even n); lia.
+  - change (2 ^ 32) with 4294967296 in Hn. change (2 ^ (Z.of_N 32 - 1))%Z with 2147483648%Z. destruct (N.even n); lia.
+  - change (2 ^ 64) with 18446744073709551616 in Hn.
+    change (2 ^ (Z.of_N 64 - 1))%Z with 9223372036854775808%Z. destruct (N.even n); lia.
+  - change (2 ^ 128) with 340282366920938463463374607431768211456 in Hn.
+    change (2 ^ (Z.of_N 128 - 1))%Z with 170141183460469231731687303715884105728%Z. destruct (N.even n); lia.
+Qed.
+
+Lemma dec_lenbytes_bound : forall inp bs r, dec_lenbytes inp = Some (bs, r) -> N.of_nat (length bs) <= U64MAX.
+Proof.
+  intros inp bs r H. unfold dec_lenbytes in H.
+  destruct (dec_u 64 inp) as [[len r0]|] eqn:E; [|discriminate].
+  apply dec_u_bound in E; [|reflexivity]. apply take_n_len in H. destruct H as [_ H].
+  change (2 ^ 64) with 18446744073709551616 in E. unfold U64MAX. lia.
+Qed.
+
+Lemma dec_rep_forallb : forall (d : decoder) (w : value -> bool) k inp vs r,
+  (forall inp v r, d inp = Some (v, r) -> w v = true) -> dec_rep d k inp = Some (vs, r) ->
+  forallb w vs = true /\ length vs = k.
+Proof.
+  intros d w k. induction k as [|k IH]; intros inp vs r Hd H; cbn [dec_rep] in H.
+  - inv H. split; reflexivity.
+  - destruct (d inp) as [[v r1]|] eqn:E1; [|discriminate].
+    destruct (dec_rep d k r1) as [[vs' r2]|] eqn:E2; inv H.
+    apply Hd in E1. apply IH in E2; [|exact Hd]. destruct E2 as [E2 E3].
+    cbn [forallb length]. rewrite E1, E2, E3. split; reflexivity.
+Qed.
+
+Lemma dec_all_wf : forall ts inp vs r,
+  Forall (fun t => forall inp v r, decode t inp = Some (v, r) -> wfb t v = true) ts ->
+  dec_all (map decode ts) inp = Some (vs, r) -> all2 (map wfb ts) vs = true.
+Proof.
+  intros ts inp vs r H. revert inp vs r. induction H as [|t ts Ht _ IH]; intros inp vs r Hd; cbn [map dec_all] in Hd.
+  - inv Hd. reflexivity.
+  - destruct (decode t inp) as [[v r1]|] eqn:E1; [|discriminate].
+    destruct (dec_all (map decode ts) r1) as [[vs' r2]|] eqn:E2; inv Hd.
+    cbn [map all2]. rewrite (Ht _ _ _ E1), (IH _ _ _ E2). reflexivity.
+Qed.
+
+Theorem decode_wf : forall t, ty_ok t = true ->
+  forall inp v r, decode t inp = Some (v, r) -> wfb t v = true.
+Proof.
+  induction t using ty_ind2; intros Hok inp v r Hd; cbn [decode] in Hd.
+  - destruct inp; inv Hd. reflexivity.
+  - destruct (dec_u b inp) as [[n r0]|] eqn:E; inv Hd. cbn [wfb]. apply N.ltb_lt. eapply dec_u_bound; eauto.
+  - destruct (dec_u b inp) as [[n r0]|] eqn:E; inv Hd. cbn [wfb].
+    apply dec_u_bound in E; [|exact Hok]. pose proof (unzz_range b n Hok E). lia.
+  - destruct inp as [|[|[p|p|]] inp']; inv Hd; reflexivity.
+  - destruct (take_n 8 inp) as [[bs r0]|] eqn:E; inv Hd. apply take_n_len in E. cbn [wfb]. apply Nat.eqb_eq. lia.
+  - destruct (dec_lenbytes inp) as [[bs r0]|] eqn:E; [|discriminate].
+    destruct (utf8_valid bs) eqn:Eu; inv Hd. apply dec_lenbytes_bound in E. cbn [wfb]. rewrite Eu. cbn [andb]. lia.
+  - destruct (dec_lenbytes inp) as [[bs r0]|] eqn:E; inv Hd. apply dec_lenbytes_bound in E. cbn [wfb]. lia.
+  - destruct (dec_lenbytes inp) as [[bs r0]|] eqn:E; [|discriminate].
+    destruct (N.of_nat (length bs) =? n) eqn:En; inv Hd. apply dec_lenbytes_bound in E. cbn [wfb]. lia.
+  - unfold dec_dur in Hd. destruct (dec_u 64 inp) as [[s r0]|]; [|discriminate].
+    destruct (dec_u 32 r0) as [[n r1]|]; [|discriminate].
+    destruct (U64MAX <? s + n / NANOS) eqn:El; inv Hd. cbn [wfb].
+    assert (n mod NANOS < NANOS) by (apply N.mod_lt; unfold NANOS; lia). lia.
+  - unfold dec_dur in Hd. destruct (dec_u 64 inp) as [[s r0]|]; [|discriminate].
+    destruct (dec_u 32 r0) as [[n r1]|]; [|discriminate].
+    destruct (I64MAX <? s + n / NANOS) eqn:El; inv Hd. cbn [wfb].
+    assert (n mod NANOS < NANOS) by (apply N.mod_lt; unfold NANOS; lia). lia.
+  - (* Seq *)
+    cbn [ty_ok] in Hok. apply andb_true_iff in Hok as [_ Hok].
+    destruct (dec_u 64 inp) as [[len r0]|] eqn:E; [|discriminate].
+    destruct (N.of_nat (length r0) <? len); [discriminate|].
+    destruct (dec_rep (decode t) (N.to_nat len) r0) as [[vs r1]|] eqn:E2; inv Hd.
+    apply (dec_rep_forallb (decode t) (wfb t)) in E2; [|intros; eapply IHt; eauto].
+    destruct E2 as [E2 E3]. apply dec_u_bound in E; [|reflexivity].
+    change (2 ^ 64) with 18446744073709551616 in E. cbn [wfb]. rewrite E2. unfold U64MAX. lia.
+  - cbn [ty_ok] in Hok. destruct inp as [|[|[p|p|]] inp']; try discriminate.
+    + inv Hd. reflexivity.
+    + destruct (decode t inp') as [[v' r']|] eqn:E; inv Hd. cbn [wfb]. eapply IHt; eauto.
+  - (* Tup *)
+    cbn [ty_ok] in Hok.
+    destruct (dec_all (map decode ts) inp) as [[vs r0]|] eqn:E; inv Hd. cbn [wfb].
+    eapply dec_all_wf; [|exact E].
+    apply forallb_Forall in Hok. rewrite Forall_forall in *. intros t Hin. apply H; auto.
+  - (* Enum *)
+    cbn [ty_ok] in Hok. apply andb_true_iff in Hok as [_ Hok].
+    destruct (dec_u 32 inp) as [[idx r0]|] eqn:E; [|discriminate].
+    destruct (idx <? N.of_nat (length ts)) eqn:Ei; [|discriminate].
+    destruct (nth_error (map decode ts) (N.to_nat idx)) as [d|] eqn:E2; [|discriminate].
+    destruct (d r0) as [[v' r']|] eqn:E3; inv Hd.
+    apply nth_error_map_inv in E2. destruct E2 as [t [Et ->]].
+    cbn [wfb]. rewrite Ei. rewrite (map_nth_error wfb _ _ Et). cbn [andb].
+    apply nth_error_In in Et. apply forallb_Forall in Hok. rewrite Forall_forall in *.
+    eapply (H t Et (Hok t Et)); eauto.
+  - (* Arr *)
+    cbn [ty_ok] in Hok.
+    destruct (dec_rep (decode t) n inp) as [[vs r0]|] eqn:E; inv Hd.
+    apply (dec_rep_forallb (decode t) (wfb t)) in E; [|intros; eapply IHt; eauto].
+    destruct E as [E1 E2]. cbn [wfb]. rewrite E1, E2, Nat.eqb_refl. reflexivity.
+Qed.
+
+(* decode is not injective (overlong varints, unnormalised durations), but the value it
+   returns re-encodes to a byte string that decodes to the same value: comparing canonical
+   re-encodings is comparing decoded values *)
+Corollary decode_canonical : forall t, ty_ok t = true ->
+  forall inp v r, decode t inp = Some (v, r) ->
+  forall r', decode t (encode t v ++ r') = Some (v, r').
+Proof. intros t Hok inp v r H r'. apply decode_encode; [exact Hok|]. eapply decode_wf; eauto. Qed.
+
+(* ---------- the UTF-8 validator accepts the encoding of every Unicode scalar value ---------- *)
+Lemma utf8_enc_valid : forall c l, scalar c = true -> utf8_valid (utf8_enc c ++ l) = utf8_valid l.
+Proof.
+  intros c l Hs. unfold scalar in Hs. unfold utf8_enc.
+  destruct (c <? 128) eqn:E1.
+  - cbn [app utf8_valid]. rewrite E1. reflexivity.
+  - destruct (c <? 2048) eqn:E2.
+    + cbn [app utf8_valid]. unfold inr, cont.
+      replace (192 + c / 64 <? 128) with false by lia.
+      replace ((194 <=? 192 + c / 64) && (192 + c / 64 <=? 223)) with true by lia.
+      unfold inr. replace ((128 <=? 128 + c mod 64) && (128 + c mod 64 <=? 191)) with true by lia.
+      reflexivity.
+    + destruct (c <? 65536) eqn:E3.
+      * cbn [app utf8_valid]. unfold inr, cont, inr.
+        replace (224 + c / 4096 <? 128) with false by lia.
+        replace ((194 <=? 224 + c / 4096) && (224 + c / 4096 <=? 223)) with false by lia.
+        replace ((224 <=? 224 + c / 4096) && (224 + c / 4096 <=? 239)) with true by lia.
+        replace ((128 <=? 128 + c mod 64) && (128 + c mod 64 <=? 191)) with true by lia.
+        destruct (224 + c / 4096 =? 224) eqn:E4.
+        { replace ((160 <=? 128 + c / 64 mod 64) && (128 + c / 64 mod 64 <=? 191)) with true by lia. reflexivity. }
+        destruct (224 + c / 4096 =? 237) eqn:E5.
+        { replace ((128 <=? 128 + c / 64 mod 64) && (128 + c / 64 mod 64 <=? 159)) with true by lia. reflexivity. }
+        replace ((128 <=? 128 + c / 64 mod 64) && (128 + c / 64 mod 64 <=? 191)) with true by lia. reflexivity.
+      * cbn [app utf8_valid]. unfold inr, cont, inr.
+        replace (240 + c / 262144 <? 128) with false by lia.
+        replace ((194 <=? 240 + c / 262144) && (240 + c / 262144 <=? 223)) with false by lia.
+        replace ((224 <=? 240 + c / 262144) && (240 + c / 262144 <=? 239)) with false by lia.
+        replace ((240 <=? 240 + c / 262144) && (240 + c / 262144 <=? 244)) with true by lia.
+        replace ((128 <=? 128 + c mod 64) && (128 + c mod 64 <=? 191)) with true by lia.
+        replace ((128 <=? 128 + c / 64 mod 64) && (128 + c / 64 mod 64 <=? 191)) with true by lia.
+        destruct (240 + c / 262144 =? 240) eqn:E4.
+        { replace ((144 <=? 128 + c / 4096 mod 64) && (128 + c / 4096 mod 64 <=? 191)) with true by lia. reflexivity. }
+        destruct (240 + c / 262144 =? 244) eqn:E5.
+        { replace ((128 <=? 128 + c / 4096 mod 64) && (128 + c / 4096 mod 64 <=? 143)) with true by lia. reflexivity. }
+        replace ((128 <=? 128 + c / 4096 mod 64) && (128 + c / 4096 mod 64 <=? 191)) with true by lia. reflexivity.
+Qed.
+
+Lemma utf8_string_valid : forall cs, forallb scalar cs = true -> utf8_valid (flat_map utf8_enc cs) = true.
+Proof.
+  induction cs as [|c cs IH]; intros H; [reflexivity|].
+  cbn [forallb] in H. apply andb_true_iff in H as [H1 H2].
+  cbn [flat_map]. rewrite utf8_enc_valid by exact H1. apply IH. exact H2.
+Qed.
